@@ -7,16 +7,19 @@ package contracts
 
 //@ package github.com/hashicorp/go-multierror
 
-// Append returns a non-nil *Error; the callers in this repository always pass one non-nil error.
+// Append returns a non-nil *Error holding at least the appended error; the callers in this
+// repository always pass one non-nil error. (Whether the result is the first argument updated in
+// place or a new object is left open.)
 //@ trusted func Append
 //@   requires len(errs) > 0 && errs[0] != nil
 //@   modifies nothing
-//@   ensures result != nil
+//@   ensures result != nil && len(result.Errors) > 0
 
-// ErrorOrNil: nil for a nil receiver; a non-nil *Error built by Append (at least one error) is returned as is.
+// ErrorOrNil: nil for a nil receiver and for an *Error without errors (e.g. a fresh &Error{});
+// otherwise the receiver itself.
 //@ trusted func (*Error).ErrorOrNil
 //@   modifies nothing
-//@   ensures (result == nil) == (e == nil)
+//@   ensures (result == nil) == (e == nil || len(e.Errors) == 0)
 
 //@ package gopkg.in/robfig/cron.v2
 
